@@ -1,0 +1,30 @@
+//go:build verif
+// +build verif
+
+package io
+
+// Verification hooks (build tag verif).  No call sites in the package itself.
+
+// VerifLockProbe reports, from inside an HDF5 library call, whether the package
+// lock is held at all and whether it is held exclusively.  A pending writer makes
+// TryRLock fail while only readers hold the lock: that can hide a violation from the
+// probe but never invent one.
+func VerifLockProbe() (held bool, exclusive bool) {
+	if mu.TryLock() {
+		mu.Unlock()
+		return false, false
+	}
+	if mu.TryRLock() {
+		mu.RUnlock()
+		return true, false
+	}
+	return true, true
+}
+
+// VerifSliceSize exposes sliceSize for direct enumeration.
+func VerifSliceSize(slice []int, size int) int { return sliceSize(slice, size) }
+
+// VerifMakeHyperslab exposes makeHyperslab for direct enumeration.
+func VerifMakeHyperslab(slice [][]int, dims []int) (offset, stride, count, block []uint) {
+	return makeHyperslab(slice, dims)
+}
